@@ -125,7 +125,7 @@ def real_signature(kspec, contigs):
 
 
 def build_db(dirpath, world, *, id_attr='key', sig_order=None, extra_sigs=(), gdb_name='ref.gdb', gs_name='ref.gs',
-             int_ids=False, genome_order=None, annot_order=None):
+             int_ids=False, genome_order=None, annot_order=None, orphans=()):
     """Write <dir>/ref.gdb (sqlite, via the repo's models) and <dir>/ref.gs (via dump_signatures).
 
     sig_order: order of the genomes' signatures in the file (list of 0-based genome indices); extra_sigs: (id, contigs)
@@ -173,6 +173,26 @@ def build_db(dirpath, world, *, id_attr='key', sig_order=None, extra_sigs=(), gd
                 s.add(AnnotatedGenome(genome=rows[gi], genome_set=gset, taxon=taxa[g['taxon'] - 1], organism='org'))
                 s.flush()
         s.commit()
+        if orphans:
+            # annotation rows left over from ANOTHER genome set whose row was deleted with plain SQL (SQLite does not cascade by default):
+            # (genome index or a dict describing a genome that is in no set, taxon index)
+            from sqlalchemy import text
+            old = ReferenceGenomeSet(key='old-set', version='0.9', name='old', description='removed')
+            s.add(old)
+            oldtax = Taxon(key='oldtax', name='Old species', rank='species', distance_threshold=0.9, report=True, genome_set=old)
+            s.add(oldtax)
+            s.flush()
+            for gref in orphans:
+                if isinstance(gref, dict):
+                    gobj = Genome(key=gref['key'], description=gref.get('desc', 'foreign'), ncbi_db='assembly', ncbi_id=gref.get('ncbi_id'),
+                                  genbank_acc=gref.get('genbank_acc'), refseq_acc=gref.get('refseq_acc'))
+                    s.add(gobj)
+                else:
+                    gobj = s.query(Genome).filter_by(key=world['genomes'][gref]['key']).one()
+                s.add(AnnotatedGenome(genome=gobj, genome_set=old, taxon=oldtax, organism='old'))
+            s.commit()
+            s.execute(text('DELETE FROM genome_sets WHERE key = :k'), dict(k='old-set'))
+            s.commit()
     engine.dispose()
     ks = KmerSpec(world['kspec'][0], world['kspec'][1])
     sig_order = sig_order if sig_order is not None else list(range(len(world['genomes'])))
